@@ -100,6 +100,20 @@ func frameItems(items [][]byte) []byte {
 	return out
 }
 
+// unframeItems is the harness' own splitter of an offered-content stream (LEB128 length + bytes, repeated).
+func unframeItems(data []byte) ([][]byte, bool) {
+	var out [][]byte
+	for len(data) > 0 {
+		n, hdr, err := unleb128(data)
+		if err != nil || uint64(len(data)-hdr) < n {
+			return nil, false
+		}
+		out = append(out, data[hdr:hdr+int(n)])
+		data = data[hdr+int(n):]
+	}
+	return out, true
+}
+
 func encFindContent(key []byte) []byte {
 	// SSZ container with one variable field: 4-byte offset (=4) then the bytes
 	out := []byte{portalwire.FINDCONTENT, 4, 0, 0, 0}
